@@ -287,9 +287,9 @@ func (g *Gen) pick(mode string, table []prod) *LNode {
 
 // arrVariant places x in an array in one of the sibling arrangements (free choice).
 func (g *Gen) arrVariant(x *LNode, withRef bool) *LNode {
-	n := 6
+	n := 8
 	if withRef {
-		n = 8
+		n = 10
 	}
 	switch g.x.Free(n, "array arrangement") {
 	case 0:
@@ -305,6 +305,10 @@ func (g *Gen) arrVariant(x *LNode, withRef bool) *LNode {
 	case 5:
 		return LA(x, LO().DC())
 	case 6:
+		return LA(g.secNum(), x) // mixed-type array, number first
+	case 7:
+		return LA(LB(false).DC(), LA().DC(), x)
+	case 8:
 		return LA(g.ref(), x)
 	default:
 		return LA(x, g.ref())
